@@ -119,6 +119,16 @@ func toF(v any) float64 {
 			return 1
 		}
 		return 0
+	case int8, int16, int32, uint8, uint16, uint32, uint64, uint, float32:
+		rv := reflect.ValueOf(v)
+		switch rv.Kind() {
+		case reflect.Float32:
+			return rv.Float()
+		case reflect.Uint, reflect.Uint8, reflect.Uint16, reflect.Uint32, reflect.Uint64:
+			return float64(rv.Uint())
+		default:
+			return float64(rv.Int())
+		}
 	}
 	panic(fmt.Sprintf("toF: %T %v", v, v))
 }
